@@ -276,6 +276,7 @@ class ValCfg:
     long_dyn: int = 300
     allow_long: bool = True
     magic_lengths: bool = True  # 255/256/257, 4092..4097, 8188/8192: block-size boundaries
+    pad_blocks: bool = True  # stretch one top-level string/byte array so that the encoding is exactly one block
 
 
 MAGIC_LENGTHS = [255, 256, 257, 4091, 4092, 4093, 4095, 4096, 4097, 8188, 8192]
